@@ -8,15 +8,25 @@ TRUST = ("trusted: rustc, std, lock_api, once_cell, hashbrown, the vendored Dash
          "the vsched scheduler and the monitors; bounded: small key alphabets, limits <= 4, ttl <= 3 s, depth / preemption bounds as reported in the evidence")
 
 CLAIMS = {
-    "C04": ("seqx", "explicit-state BFS over the real cache engines (all three flavours x six policies x limits x ttl x memory), every random victim enumerated; "
-                    "monitor: size <= limit after every operation and exactly the required number of removals per store", "§7 C04"),
-    "C05": ("seqx", "explicit-state BFS with values of seven owned-heap types and four footprints (one larger than the bound); monitor computes footprints with its own rule and "
-                    "demands total <= max_memory, oversized values displace nothing, removals are explained by memory pressure or the entry limit", "§7 C05"),
-    "C06": ("seqx", "explicit-state BFS under a frozen virtual clock with 1 s (sync) / 0.5 s (async) ticks, ages hit T-1, T, T+1 exactly; monitor: expired entries are never served and are purged, "
-                    "unexpired ones are served, purged entries stop occupying capacity", "§7 C06"),
+    "C01": ("seqx+macx", "explicit-state BFS over the three core engines with two versions per key (last store wins, value encodes key) plus bounded-exhaustive history enumeration over 372 generated #[cache]/#[cache_async] functions (full flavour x policy x limit x ttl x memory product) whose values encode function, key and version; every returned value compared with the undecorated twin", "§7 C01"),
+    "C03": ("macx+thrx", "every call sequence (depth 5/6) over 3 keys x 2 functions sharing key strings for all unlimited functions: executions = distinct tuples; plus every schedule (preemption bound 2/3, both rwlock policies) of 2-3 concurrent callers: nothing runs after a storing call returned", "§7 C03"),
+    "C04": ("seqx+macx", "explicit-state BFS over the real cache engines (all three flavours x six policies x limits x ttl x memory), every random victim enumerated; "
+                    "monitor: size <= limit after every operation and exactly the required number of removals per store; the same monitor on the key listing of generated functions", "§7 C04"),
+    "C05": ("seqx+macx", "explicit-state BFS with values of seven owned-heap types and four footprints (one larger than the bound); monitor computes footprints with its own rule and "
+                    "demands total <= max_memory, oversized values displace nothing, removals are explained by memory pressure or the entry limit; L1 functions with max_memory", "§7 C05"),
+    "C06": ("seqx+macx", "explicit-state BFS under a frozen virtual clock with 1 s (sync) / 0.5 s (async) ticks, ages hit T-1, T, T+1 exactly; monitor: expired entries are never served and are purged, "
+                    "unexpired ones are served, purged entries stop occupying capacity; L1 functions with ttl", "§7 C06"),
     "C07": ("seqx", "explicit-state BFS to closure for FIFO and LRU under entry and memory pressure; monitor: victims form a prefix of the ghost store order / last-use order", "§7 C07"),
     "C08": ("seqx", "explicit-state BFS for LFU/ARC/TLRU with ghost hit counts, recency ranks and exact ages; monitor: every victim is a score minimiser among the admissible candidates (ties free)", "§7 C08"),
-    "C16": ("seqx", "explicit-state BFS over the full configuration product with catch_unwind around every operation", "§7 C16"),
+    "C09": ("macx", "history enumeration over 72 Result functions (both spellings, three flavours) with every Ok/Err outcome script: Err never stored / served / evicting, first Ok stored and reused", "§7 C09"),
+    "C10": ("macx", "history enumeration over 24 cache_if functions with every accept/reject script: consulted once per execution with that call's key and result, verdict decides storage", "§7 C10"),
+    "C11": ("macx", "history enumeration over 24 invalidate_on functions with versioned bodies and every verdict script: stale entries never served, refreshed value replaces the stale one and is served next", "§7 C11"),
+    "C12": ("macx", "history enumeration over groups covering all 128 metadata assignments (tags/events/dependencies subsets of {x,y}, sync and async): every by_tag/by_event/by_dependency/invalidate_cache request incl. undeclared names; count and emptied caches compared with the metadata", "§7 C12"),
+    "C13": ("macx", "history enumeration with invalidate_with / invalidate_all_with for key subsets: exactly the matching keys go, bystanders untouched, and the C04-type monitors keep running after the invalidation", "§7 C13"),
+    "C15": ("seqx+macx+thrx", "stats compared with the harness's own lookup/hit counts after every operation (L0 BFS, L1 histories incl. named caches and reset), and at quiescence for every schedule of concurrent callers with the counters' atomics as scheduling points", "§7 C15"),
+    "C16": ("seqx+macx", "explicit-state BFS over the full configuration product with catch_unwind around every operation; L1 histories over every generated function", "§7 C16"),
+    "C17": ("thrx", "every schedule (preemption bound 2/3, both rwlock fairness policies) of 920+ two/three-thread drivers mixing cached calls (hit/miss/overflow/expired/oversized) with every invalidation and statistics function; oracle: the scheduler's deadlock detection", "§7 C17"),
+    "C18": ("thrx", "same drivers plus L0 drivers on harness-owned storage; oracle: values inside threads, bounds and store-vs-queue agreement at quiescence, then a sequential probe (fresh stores flush everything, entries expire, everything can be invalidated)", "§7 C18"),
 }
 
 checks = []
@@ -49,8 +59,12 @@ manifest = {
         "add_only": True,
     },
     "engines": [
-        {"name": "seqx", "path": "harness/engine/src/seqx.rs", "serves_properties": sorted(k for k, v in CLAIMS.items() if v[0] == "seqx"),
+        {"name": "seqx", "path": "harness/engine/src/seqx.rs", "serves_properties": sorted(k for k, v in CLAIMS.items() if "seqx" in v[0]),
          "kind_free_text": "explicit-state breadth-first search over the real core caches (harness-owned storage), virtual clock, enumerated fastrand"},
+        {"name": "macx", "path": "harness/engine/src/macx.rs", "serves_properties": sorted(k for k, v in CLAIMS.items() if "macx" in v[0]),
+         "kind_free_text": "bounded-exhaustive history enumeration over a generated corpus of #[cache]/#[cache_async] functions, environment answers enumerated"},
+        {"name": "thrx", "path": "harness/engine/src/thrx.rs", "serves_properties": sorted(k for k, v in CLAIMS.items() if "thrx" in v[0]),
+         "kind_free_text": "stateless exploration of real OS threads under a controlled scheduler (vsched) with iterative preemption bounding; instrumented parking_lot/DashMap locks"},
     ],
     "checks": checks,
     "notes": "see DESIGN.md; known_findings.txt lists repaired defects (fixed:) and recorded findings (known:)",
